@@ -67,6 +67,9 @@ pub struct RunCtx {
 }
 
 thread_local! {
+    /// Bumped by the simulator's scheduler at every step; a watchdog on another OS thread reads it
+    /// to tell a run that makes progress from code under test spinning without ever yielding.
+    static PROGRESS: std::sync::Arc<std::sync::atomic::AtomicU64> = std::sync::Arc::new(std::sync::atomic::AtomicU64::new(0));
     static CTX: RefCell<RunCtx> = RefCell::new(RunCtx::default());
     static LAST_YIELD: Cell<u8> = const { Cell::new(0) };
     static PANICKING_TASK: Cell<Option<usize>> = const { Cell::new(None) };
@@ -116,6 +119,16 @@ pub fn set_scheduled_task(t: Option<usize>) {
 
 pub fn scheduled_task() -> Option<usize> {
     SCHEDULED_TASK.with(|c| c.get())
+}
+
+/// The progress counter of the calling OS thread.
+pub fn progress_handle() -> std::sync::Arc<std::sync::atomic::AtomicU64> {
+    PROGRESS.with(|p| std::sync::Arc::clone(p))
+}
+
+#[inline]
+pub fn bump_progress() {
+    PROGRESS.with(|p| p.fetch_add(1, std::sync::atomic::Ordering::Relaxed));
 }
 
 pub fn panicking_task() -> Option<usize> {
